@@ -336,7 +336,7 @@ def loop_runs() -> Any:
                 for e in es:
                     e.pop("add_at"), e.pop("remove_at")
             sources.append({"kind": kind, "entries": es, "fail_polls": [], "list_latency": 0.0 if kind == "label" else lat})
-        return {"loop": True, "base_us": base, "horizon_min": d["h"], "sources": sources, "latencies": [0.0], "kick_fail": []}
+        return {"loop": True, "base_us": base, "horizon_min": d["h"], "sources": sources, "latencies": d["kick_lat"], "kick_fail": []}
 
     ent = st.tuples(st.sampled_from(["cur", "next", "next", "next2", "any", "even", "pair"]), st.sampled_from(["* * * *", "* * * *", "*/1 * * *"]),
                     st.one_of(st.none(), st.none(), st.fixed_dictionaries({"td_us": st.sampled_from([3600 * 10**6, -1800 * 10**6, 90 * 10**6])}),
@@ -346,6 +346,9 @@ def loop_runs() -> Any:
         "bsec": st.sampled_from([0.0, 30.0, 55.0, 57.5, 59.0, 59.9]), "h": st.integers(2, 3),
         # the first source is the label-based one: all its entries are declared on ONE task, each with an offset of its own (or none)
         "label": st.sampled_from([False, True]),
+        # how long the broker takes to accept a message: a send that is still in progress when the next matching minute arrives
+        # does not make the schedule any less due
+        "kick_lat": st.sampled_from([[0.0], [0.0], [0.0], [90.0], [61.0, 0.0], [0.5]]),
         "sources": st.lists(st.tuples(st.sampled_from([0.0, 0.0, 0.4, 3.0, 5.0, 61.0]), st.lists(ent, min_size=1, max_size=3)), min_size=1, max_size=2),
     }).map(fin)
 
@@ -378,7 +381,7 @@ def run_loop_case(case: Dict[str, Any]) -> Outcome:
                              f"{[(i, ent[i]['cron'], ent[i]['offset']) for i in got]}, but the expressions matching that minute are {[(i, ent[i]['cron'], ent[i]['offset']) for i in want]}")
             break
     out.nontrivial = crossed or any(s_["kind"] == "label" and len({repr(e["offset"]) for e in s_["entries"]}) > 1 for s_ in case["sources"])
-    out.classes = ["loop"] + (["label_source_mixed_offsets"] if any(s_["kind"] == "label" and len({repr(e["offset"]) for e in s_["entries"]}) > 1 for s_ in case["sources"]) else []) + (["listing_crossed_minute_boundary"] if crossed else []) + (["slow_source"] if any(s["list_latency"] for s in case["sources"]) else [])
+    out.classes = ["loop"] + (["label_source_mixed_offsets"] if any(s_["kind"] == "label" and len({repr(e["offset"]) for e in s_["entries"]}) > 1 for s_ in case["sources"]) else []) + (["listing_crossed_minute_boundary"] if crossed else []) + (["slow_source"] if any(s["list_latency"] for s in case["sources"]) else []) + (["send_outlasts_a_minute"] if max(case.get("latencies") or [0.0]) > 60 else [])
     out.trace = {"kicks": [[k["tag"], k["t"] - case["base_us"]] for k in res["kicks"]][:12]}
     return out
 
